@@ -26,7 +26,7 @@ RULE = (
 ASSUMPTIONS = ["dense reference; forced measurement settings so that compile is a function",
                "compile(circuit, initial_state=s) aliasing s is outside the statement and not asserted"]
 REQUIRED_CLASSES = {"interleave": ["rewrite:group", "rewrite:unwrap", "rewrite:rmid", "rewrite:copy", "rewrite:assign_empty",
-                                   "call:assign_noise", "call:mc", "call:solve", "call:hybrid", "call:evo", "call:alt", "call:copy_grow", "noisy_compile_twice:two_sided_noise", "call:compile", "call:metric", "reuse_after_noisy_copy", "rewrite:noisy_copy"]}
+                                   "call:assign_noise", "call:mc", "call:solve", "call:hybrid", "call:evo", "call:alt", "call:copy_grow", "call:cost_metrics", "noisy_compile_twice:two_sided_noise", "call:compile", "call:metric", "reuse_after_noisy_copy", "rewrite:noisy_copy"]}
 
 
 def compilers():
@@ -221,6 +221,18 @@ def check(case, sub="interleave"):
             which = step[1]
             if which == "depth":
                 guarded(sub, icls, CircuitDepth().evaluate, s, C)
+            elif which == "cost":
+                # every circuit-cost metric class, evaluated on the original (the invariants then check that it is unchanged)
+                import graphiq.metrics as gm
+
+                for name in ("CircuitDepth", "CircuitEmitterCount", "CircuitCnotCount", "CircuitUnitaryCount", "CircuitMeasureCount",
+                             "CircuitMaxEmitDepth", "CircuitMaxEmitResetDepth", "CircuitMaxEmitEffDepth"):
+                    if name.startswith("CircuitMaxEmit") and C.n_emitters == 0:
+                        continue
+                    metric = guarded(sub, icls, getattr(gm, name))
+                    guarded(sub, icls, metric.evaluate, s, C)
+                    guarded(sub, icls, metric.evaluate, s, C)
+                cl.add("call:cost_metrics")
             elif n == tg["n"] and target.rep_type in ("s", "dm"):
                 m = Infidelity(target) if which == "inf" else None
                 if m is not None:
@@ -405,7 +417,7 @@ def strat(tier):
     acts = st.one_of(
         st.sampled_from([["W:copy"], ["W:unwrap"], ["W:group"], ["W:rmid"], ["W:assign_empty"], ["W:group"], ["W:unwrap"]]),
         st.tuples(st.just("C:compile"), st.sampled_from(["stab", "dm"]), st.sampled_from([0, 1]), st.booleans()).map(list),
-        st.tuples(st.just("C:metric"), st.sampled_from(["inf", "depth"])).map(list),
+        st.tuples(st.just("C:metric"), st.sampled_from(["inf", "depth", "cost", "cost"])).map(list),
         st.tuples(st.just("C:compare"), st.sampled_from(["direct", "is_isomorphic"])).map(list),
         st.just(["C:qasm"]),
         st.tuples(st.just("C:assign_noise"), MAPSPEC).map(list),
